@@ -344,6 +344,7 @@ func checkC17(w *World, r *Report) {
 	r.floor("propagating call sites on render/load paths", nSites, 60)
 
 	a.checkLookups(r, reach)
+	checkCallsNotTolerant(w, r)
 	a.checkTopLevel(r)
 }
 
@@ -640,3 +641,70 @@ func (w *World) loadPartsSet() map[*ssa.Function]bool {
 }
 
 var _ = fmt.Sprintf
+
+// checkCallsNotTolerant (R17.4): a call expression (FunctionNode) is never answered by one of the
+// tolerant accessors — functions that return (nil, nil) for something they do not find, which is
+// the documented behaviour for undefined variables, attributes and items.  Forwarding such a
+// result for `lib.name()` turns an unknown macro or function into empty output with a nil error.
+func checkCallsNotTolerant(w *World, r *Report) {
+	eval := w.ssaFunc(w.method("RenderContext", "EvaluateExpression"))
+	// tolerant accessors: (value, error) functions with a `return nil, nil`
+	tolerant := map[*ssa.Function]bool{}
+	for _, fn := range w.pkgFuncs() {
+		if fn == eval || fn.Signature.Results().Len() != 2 {
+			continue
+		}
+		instrsOf(fn, func(in ssa.Instruction) {
+			if ret, ok := in.(*ssa.Return); ok {
+				res := retResults(ret)
+				if len(res) == 2 && isNilConst(res[0]) && isNilConst(res[1]) {
+					tolerant[fn] = true
+				}
+			}
+		})
+	}
+	// the FunctionNode arm(s)
+	var arms []*ssa.BasicBlock
+	instrsOf(eval, func(in ssa.Instruction) {
+		ta, ok := in.(*ssa.TypeAssert)
+		if !ok || !ta.CommaOk || !isNamed(ta.AssertedType, twigPath, "FunctionNode") || ta.Referrers() == nil {
+			return
+		}
+		for _, ref := range *ta.Referrers() {
+			if ex, ok := ref.(*ssa.Extract); ok && ex.Index == 1 && ex.Referrers() != nil {
+				for _, r2 := range *ex.Referrers() {
+					if i, ok := r2.(*ssa.If); ok {
+						arms = append(arms, i.Block().Succs[0])
+					}
+				}
+			}
+		}
+	})
+	n := 0
+	for _, arm := range arms {
+		instrsOf(eval, func(in ssa.Instruction) {
+			ret, ok := in.(*ssa.Return)
+			if !ok || !(arm == ret.Block() || arm.Dominates(ret.Block())) {
+				return
+			}
+			res := retResults(ret)
+			if len(res) != 2 {
+				return
+			}
+			n++
+			construct := "a call expression is not answered by a tolerant accessor"
+			var g *ssa.Function
+			if ex, ok := res[0].(*ssa.Extract); ok {
+				if c, ok := ex.Tuple.(*ssa.Call); ok {
+					g = c.Call.StaticCallee()
+				}
+			}
+			if g != nil && tolerant[g] {
+				r.bad("R17.4", ssaName(eval), construct, w.posOf(ret.Pos()), "the value of a call expression is the result of "+g.Name()+", which returns (nil, nil) for what it does not find: calling an unknown macro or function of a library renders as empty output instead of failing")
+			} else {
+				r.ok("R17.4", ssaName(eval), construct, w.posOf(ret.Pos()), "the returned value comes from the function/macro call machinery (or is an error return)", false)
+			}
+		})
+	}
+	r.floor("returns in the FunctionNode arm of EvaluateExpression", n, 3)
+}
